@@ -692,6 +692,9 @@ func runC07(c *vlib.Ctx) {
 	depth, maxNodes := 5, 4
 	if c.Thorough() {
 		depth, maxNodes = 7, 6
+		// the last levels hold millions of states: levels are expanded in chunks and the run stops at the budget,
+		// reporting the depth completed and how much of the next level was expanded
+		c.Deadline = time.Now().Add(35 * time.Minute)
 	}
 	type st struct{ path []c07Op }
 	seen := map[string]bool{}
@@ -704,9 +707,43 @@ func runC07(c *vlib.Ctx) {
 			b, _ := json.Marshal(c07Job{Path: f.path, Thorough: c.Thorough(), MaxNodes: maxNodes})
 			jobs[i] = string(b)
 		}
-		results := vlib.Pool("c07", nil, 16, jobs)
+		// a fixed stride order over the level, so that a level cut short by the budget is sampled evenly, not by prefix
+		order := make([]int, 0, len(jobs))
+		const stride = 64
+		for off := 0; off < stride; off++ {
+			for i := off; i < len(jobs); i += stride {
+				order = append(order, i)
+			}
+		}
+		results := make([]vlib.PoolResult, len(jobs))
+		done := make([]bool, len(jobs))
+		expanded := 0
+		for lo := 0; lo < len(order); lo += 4096 {
+			if c.OverBudget() {
+				break
+			}
+			hi := lo + 4096
+			if hi > len(order) {
+				hi = len(order)
+			}
+			chunk := make([]string, hi-lo)
+			for k := lo; k < hi; k++ {
+				chunk[k-lo] = jobs[order[k]]
+			}
+			for k, r := range vlib.Pool("c07", nil, 16, chunk) {
+				results[order[lo+k]] = r
+				done[order[lo+k]] = true
+				expanded++
+			}
+		}
+		if expanded < len(jobs) {
+			c.Cap(fmt.Sprintf("time budget reached inside depth %d: %d of %d frontier states expanded (fixed stride order); depth %d completed", d, expanded, len(jobs), d-1))
+		}
 		var next []st
 		for i, r := range results {
+			if !done[i] {
+				continue
+			}
 			if r.Died && r.TimedOut {
 				c.Cap(fmt.Sprintf("watchdog: exploring from %v exceeded %v (goroutine dump: %s)", frontier[i].path, vlib.JobTimeout, tail(r.Stderr, 1500)))
 				continue
